@@ -111,10 +111,29 @@ func cloneShards(sh [][]byte) [][]byte {
 }
 
 type roundCase struct {
-	Blob    []byte
-	K, M    int
-	Erased  []int
+	Blob   []byte
+	K, M   int
+	Erased []int
+	// Empty lists the lost shards that are handed over as []byte{} instead of nil
+	// (klauspost treats both as missing)
+	Empty   []int
 	Pattern string
+}
+
+// lossEncoding decides, for a set of lost shards, which ones are given as an empty slice
+func (c *ctxRun) lossEncoding(erased []int) []int {
+	var empty []int
+	switch c.r.Intn(5) {
+	case 0: // all of them
+		empty = append(empty, erased...)
+	case 1: // some of them
+		for _, i := range erased {
+			if c.r.Bool() {
+				empty = append(empty, i)
+			}
+		}
+	}
+	return empty
 }
 
 // cost bound for the Coq evaluation: about size * k^2 field multiplications per interpolation
@@ -270,7 +289,7 @@ func (c *ctxRun) genRound() roundCase {
 		}
 		erased = append(erased, perm[:e]...)
 	}
-	return roundCase{Blob: c.genBlob(ln), K: k, M: m, Erased: erased, Pattern: pattern}
+	return roundCase{Blob: c.genBlob(ln), K: k, M: m, Erased: erased, Empty: c.lossEncoding(erased), Pattern: pattern}
 }
 
 func (c *ctxRun) rsRound(rc roundCase, tag string) {
@@ -292,7 +311,7 @@ func (c *ctxRun) roundEncode(rc roundCase, tag string) *pendingRound {
 func (c *ctxRun) roundFinish(p *pendingRound) {
 	rc, tag, enc := p.rc, p.tag, p.enc
 	info := map[string]any{"kind": "round", "tag": tag, "k": rc.K, "m": rc.M, "blob_len": len(rc.Blob),
-		"blob_hex": fmt.Sprintf("%x", rc.Blob), "erased": rc.Erased, "pattern": rc.Pattern}
+		"blob_hex": fmt.Sprintf("%x", rc.Blob), "erased": rc.Erased, "erased_given_as_empty_slice": rc.Empty, "pattern": rc.Pattern}
 	recS, postS := "Panic", "[]"
 	if !enc.panicked && enc.err == nil {
 		in := cloneShards(enc.shards)
@@ -300,6 +319,14 @@ func (c *ctxRun) roundFinish(p *pendingRound) {
 			if i >= 0 && i < len(in) {
 				in[i] = nil
 			}
+		}
+		for _, i := range rc.Empty {
+			if i >= 0 && i < len(in) && in[i] == nil {
+				in[i] = []byte{}
+			}
+		}
+		if len(rc.Empty) > 0 {
+			c.st.Count("round:some-lost-shards-as-empty-slice")
 		}
 		rec := realReconstruct(in, rc.K, len(rc.Blob), false)
 		recS, postS = rec.coq(), coqShards(in)
@@ -336,8 +363,8 @@ func (c *ctxRun) roundFinish(p *pendingRound) {
 			info["encode_err"] = enc.err.Error()
 		}
 	}
-	term := fmt.Sprintf("CRound {| rc_blob := %s; rc_k := %s; rc_m := %s; rc_enc := %s; rc_erased := %s; rc_rec := %s; rc_post := %s |}",
-		coqBytes(rc.Blob), emit.ZI(int64(rc.K)), emit.ZI(int64(rc.M)), enc.coq(), coqNats(rc.Erased), recS, postS)
+	term := fmt.Sprintf("CRound {| rc_blob := %s; rc_k := %s; rc_m := %s; rc_enc := %s; rc_erased := %s; rc_empty := %s; rc_rec := %s; rc_post := %s |}",
+		coqBytes(rc.Blob), emit.ZI(int64(rc.K)), emit.ZI(int64(rc.M)), enc.coq(), coqNats(rc.Erased), coqNats(rc.Empty), recS, postS)
 	c.cf.Add(term)
 	c.st.Info(info)
 	c.st.Evaluations++
@@ -364,7 +391,11 @@ func (c *ctxRun) rsCorpus() error {
 		{Blob: seq(20), K: 10, M: 0, Erased: []int{4}},                                       // m = 0, one lost
 		{Blob: seq(25), K: 10, M: 10, Erased: []int{0, 1, 2, 3, 4, 5, 6, 7, 8, 9}},           // all data lost
 		{Blob: seq(25), K: 10, M: 10, Erased: []int{10, 11, 12, 13, 14, 15, 16, 17, 18, 19}}, // all parity lost
-		{Blob: seq(5), K: 0, M: 2, Erased: nil},                                              // invalid counts
+		// short blob in many shards (padding longer than a shard), a data shard lost as []byte{}
+		{Blob: seq(32), K: 10, M: 5, Erased: []int{2}, Empty: []int{2}},
+		{Blob: seq(32), K: 10, M: 5, Erased: []int{0, 1, 2, 3, 4, 5}, Empty: []int{0, 1, 2, 3, 4, 5}}, // one too many, all empty
+		{Blob: seq(40), K: 10, M: 5, Erased: []int{9, 3, 12}, Empty: []int{3}},                        // mixed nil / empty
+		{Blob: seq(5), K: 0, M: 2, Erased: nil},                                                       // invalid counts
 		{Blob: seq(5), K: -1, M: 2, Erased: nil},
 		{Blob: seq(5), K: 3, M: -1, Erased: nil},
 		{Blob: seq(5), K: 300, M: 0, Erased: nil}, // > 256 with no parity
@@ -473,8 +504,14 @@ func (c *ctxRun) rsMalformed() {
 		}
 	}
 	rec := realReconstruct(in, kArg, out, joinOnly)
-	term := fmt.Sprintf("CRec {| rj_in := %s; rj_k := %s; rj_out := %s; rj_join_only := %s; rj_res := %s; rj_post := %s |}",
-		coqShards(before), emit.ZI(int64(kArg)), emit.ZI(int64(out)), emit.Bool(joinOnly), rec.coq(), coqShards(in))
+	// loss-only inputs: the harness knows the original blob and the parity count (ghost values
+	// for the monitors: <= m lost => blob, > m lost => error, never other bytes without error)
+	ghost := "None"
+	if kind == "empty-non-nil-shard" || kind == "all-nil" {
+		ghost = fmt.Sprintf("(Some (%s, %s))", coqBytes(blob), emit.ZI(int64(m)))
+	}
+	term := fmt.Sprintf("CRec {| rj_in := %s; rj_k := %s; rj_out := %s; rj_join_only := %s; rj_res := %s; rj_post := %s; rj_ghost := %s |}",
+		coqShards(before), emit.ZI(int64(kArg)), emit.ZI(int64(out)), emit.Bool(joinOnly), rec.coq(), coqShards(in), ghost)
 	c.cf.Add(term)
 	info := map[string]any{"kind": "malformed:" + kind, "k": k, "m": m, "k_arg": kArg, "out": out, "blob_len": ln, "result": rec.class()}
 	if rec.err != nil {
